@@ -18,8 +18,8 @@ def txt(n):
 
 def r_constructors(rule, root=None):
     """every count / map a tape or function advertises is copied from its namesake"""
-    for name, want in (("tracing_tape", {"vars": "self.0.data().vars.clone()", "choice_count": "self.0.choice_count()", "output_count": "self.0.output_count()", "mmap": "f.into()"}),
-                       ("bulk_tape", {"vars": "self.0.data().vars.clone()", "output_count": "self.0.output_count()", "mmap": "f.into()"})):
+    for name, want in (("tracing_tape", {"vars": "self.0.data().vars.clone()", "choice_count": "self.0.choice_count()", "output_count": "self.0.output_count()"}),
+                       ("bulk_tape", {"vars": "self.0.data().vars.clone()", "output_count": "self.0.output_count()"})):
         fn = A.find_fn(JIT, name, self_ty="JitFunction", root=root)
         st = [s for s in A.find(fn["body"], "Struct") if A.path_segs(s["path"])[-1] in ("JitTracingFn", "JitBulkFn")]
         f = {x["name"]: txt(x["e"]) for x in st[0]["fields"]} if st else {}
@@ -39,7 +39,7 @@ def r_constructors(rule, root=None):
         mf = t.fmatch("let$F=build_asm_fn_with_storage::<A>(self.0.data(),storage);")
         folded = txt(A.inline_lets_deep(fn["body"]))
         ptr_ok = mf is not None and ("transmute::<*conststd::ffi::c_void," in str(folded)) and (">(%s.as_ptr())" % mf["$F"]) in str(folded)
-        if ptr_ok and f.get("mmap") == "%s.into()" % mf["$F"]:
+        if ptr_ok and str(f.get("mmap")) in ("%s.into()" % mf["$F"], "Arc::new(%s)" % mf["$F"], "Arc::from(%s)" % mf["$F"], "std::sync::Arc::new(%s)" % mf["$F"]):
             rule.ok("JitFunction::%s: the function pointer is the start of the mapping just assembled for this function's data" % name)
         else:
             rule.bad("ctor|%s|ptr" % name, "JitFunction::%s must assemble self.0.data() and take the pointer of that mapping" % name, A.where(fn))
